@@ -26,6 +26,7 @@ type answer struct {
 	Transport string // normal | abort-connect | abort-body | held-cancel | length-lie
 	Sticky    bool   // the endpoint keeps giving this answer (otherwise the next request gets the valid default)
 	AbortAt   int
+	Combo     string // wrongtype: "doc|member|value index" (coverage accounting)
 }
 
 func (a *answer) valid() bool {
@@ -144,7 +145,7 @@ func validAnswer(w *world, endpoint string) *answer {
 
 func largeSize(thorough bool, r *rand.Rand) int {
 	if thorough {
-		return pick(r, 64<<10, 1<<20, 5<<20, 5<<20)
+		return pick(r, 64<<10, 256<<10, 1<<20, 5<<20)
 	}
 	return pick(r, 16<<10, 64<<10, 256<<10)
 }
@@ -174,7 +175,7 @@ func hostile(w *world, endpoint string, classIdx int, r *rand.Rand, thorough boo
 	case "valid-extra":
 		// a valid document with harmless decoration: unknown members, whitespace, reordered
 		va := validAnswer(w, endpoint)
-		a.Status, a.Header = va.Status, va.Header
+		a.Status, a.Header, a.CType = va.Status, va.Header, va.CType
 		d := vd.clone()
 		r.Shuffle(len(d), func(i, j int) { d[i], d[j] = d[j], d[i] })
 		d = append(d, member{"x_unknown", `{"deep":[1,2,{"a":null}]}`}, member{"", `1`})
@@ -230,6 +231,7 @@ func hostile(w *world, endpoint string, classIdx int, r *rand.Rand, thorough boo
 		}
 		if !nested {
 			d = vd.with(m.K, wv)
+			a.Combo = fmt.Sprintf("%s|%s|%s", docName(w, endpoint), m.K, short(wv))
 			a.Detail = fmt.Sprintf("member=%s value=%s", m.K, short(wv))
 		}
 		if r.IntN(8) == 0 {
@@ -746,3 +748,23 @@ func splitTop(s string) []string {
 }
 
 var _ = url.Parse
+
+func docName(w *world, endpoint string) string {
+	switch {
+	case endpoint == fakeop.Token && w.tokenExchange:
+		return "token-exchange"
+	case endpoint == fakeop.Revocation || endpoint == fakeop.EndSession:
+		return "error"
+	}
+	return endpoint
+}
+
+// wrongTypeSpace is the number of (document, member, wrong value) combinations the generator draws from.
+func wrongTypeSpace(w *world) int {
+	n := len(errorDoc())
+	for _, ep := range []string{fakeop.Discovery, fakeop.Token, fakeop.Userinfo, fakeop.Introspection, fakeop.JWKS, fakeop.DeviceAuthorization} {
+		n += len(validDocFor(w, ep))
+	}
+	n += len(tokenExchangeDoc(w.issuer))
+	return n * len(wrongValues)
+}
